@@ -192,3 +192,18 @@ func (v *VerifPoolDP) VerifPoolBFDSender(ifID uint16) (func(*layers.BFD) error, 
 	}
 	return s.Send, nil
 }
+
+// VerifPoolInject takes a buffer from the pool and fills it the way a receive loop of the link
+// of ifID would for a datagram raw. The caller hands it to a processor queue
+// (udpip.VerifPoolEnqueueProc) or gives it back (VerifPoolReturn). In the tracker the calling
+// goroutine counts as a receive loop.
+func (v *VerifPoolDP) VerifPoolInject(raw []byte, ifID uint16) *Packet {
+	p := v.dp.packetPool.Get()
+	p.RawPacket = p.RawPacket[:len(raw)]
+	copy(p.RawPacket, raw)
+	p.Link = v.dp.interfaces[ifID]
+	return p
+}
+
+// VerifPoolReturn is PacketPool.Put for a buffer obtained with VerifPoolInject.
+func (v *VerifPoolDP) VerifPoolReturn(p *Packet) { v.dp.packetPool.Put(p) }
